@@ -789,10 +789,19 @@ func (r *Raft) submitReadOnlyOperation(
 		return operationFuture
 	}
 
+	// Until this leader has committed an entry of its own term, its commit index may be
+	// behind entries that a previous leader has committed and acknowledged. All of them
+	// precede the no-op that this leader appended when it was elected, so the operation
+	// has to wait for everything that is in the log now.
+	readIndex := r.commitIndex
+	if !r.committedThisTerm() {
+		readIndex = r.log.LastIndex()
+	}
+
 	operation := &Operation{
 		Bytes:         operationBytes,
 		OperationType: readOnlyType,
-		readIndex:     r.commitIndex,
+		readIndex:     readIndex,
 		round:         r.operationManager.rounds,
 	}
 	r.operationManager.pendingReadOnly[operation] = operationFuture.responseCh
